@@ -741,6 +741,11 @@ func (fr *Frame) specHelper(name string, fn *ssa.Function, args []Val, pos token
 			return Val{T: Forall([]*Term{q}, body)}, true
 		}
 		return Val{T: Exists([]*Term{q}, body)}, true
+	case "vcAllocated":
+		// the slice's backing array exists now (or the slice is nil): it cannot be an array allocated later
+		arr := DataField_(args[0].T, 0)
+		alive := fr.cur.get("alive", SArray(SRef, SBool))
+		return Val{T: Or(Eq(arr, BVLit(0, 64)), Select(alive, arr))}, true
 	case "vcPreElem":
 		// element k of slice s as it was in the pre-state of the function under contract (s is usually old(x.f))
 		var pre *State
@@ -995,15 +1000,18 @@ func (fr *Frame) appendOp(cc *ssa.CallCommon, args []Val, pos token.Pos) Val {
 			}
 			inPlace[li] = ip
 		} else {
-			// unknown count: appended range unconstrained, everything else preserved
+			// unknown count: everything outside the appended range preserved, the appended range is a copy of the
+			// source elements as they were before the call (memmove semantics, also when the two overlap)
 			ipv := FreshVar("append_inplace", SArray(SInt, lf.sort))
 			q2 := BoundVar("i", SInt)
 			c.assume(Forall([]*Term{q2}, Implies(Not(And(BVCmp("bvsge", q2, BV("bvadd", off, ln)), BVCmp("bvslt", q2, BV("bvadd", off, newLen)))), Eq(Select(ipv, q2), Select(src, q2)))))
+			q3 := BoundVar("a", SInt)
+			inAdd := And(BVCmp("bvsge", q3, BVLit(0, 64)), BVCmp("bvslt", q3, addLen))
+			srcElem := Select(addInners[li], BV("bvadd", DataField_(add, 1), q3))
+			c.assume(Forall([]*Term{q3}, Implies(inAdd, Eq(Select(ipv, BV("bvadd", BV("bvadd", off, ln), q3)), srcElem))))
+			c.assume(Forall([]*Term{q3}, Implies(inAdd, Eq(Select(fr_, BV("bvadd", ln, q3)), srcElem))))
 			inPlace[li] = ipv
 		}
-	}
-	if !known {
-		c.note("append of a slice of unknown length: appended contents havocked in " + fr.fn.String())
 	}
 	// merge the two outcomes per leaf
 	for li, lf := range ls {
